@@ -92,6 +92,7 @@ type Profile struct {
 	Supported bool // J5-supported subset only (C15): no unsupported kinds, no inconsistent annotations
 	MaxFiles  int
 	Comments  bool // attach leading comments (descriptions)
+	CrossPkg  bool // bias towards several files, a sub-package first, and references across files
 }
 
 // Case is one generated descriptor set.
@@ -153,11 +154,17 @@ func Generate(r *vh.Rand, p Profile, deps []*descriptorpb.FileDescriptorProto) *
 	if p.MaxFiles > 1 && g.chance(45) {
 		nFiles = 1 + r.Intn(p.MaxFiles)
 	}
+	if p.CrossPkg && p.MaxFiles > 1 {
+		nFiles = 2 + r.Intn(p.MaxFiles-1)
+	}
 	usedPkg := map[string]int{}
 	for fi := 0; fi < nFiles; fi++ {
 		pkg := pkgNames[r.Intn(len(pkgNames))]
 		if fi == 0 {
 			pkg = pkgNames[r.Intn(2)]
+			if p.CrossPkg && g.chance(60) {
+				pkg = pick(g, []string{"gen.b.v1.topic", "gen.c.v2.service", "gen.d.v1.sandbox", "gen.a.v1.sub"})
+			}
 		}
 		usedPkg[pkg]++
 		path := fmt.Sprintf("%s/f%d.proto", dotToSlash(pkg), fi)
@@ -683,6 +690,17 @@ func (g *gen) pickType(sh *shell, fi int, f *descriptorpb.FieldDescriptorProto, 
 			return
 		}
 		t := pick(g, cands)
+		if g.p.CrossPkg && g.chance(45) {
+			var other []typeRef
+			for _, m := range cands {
+				if m.file != fi {
+					other = append(other, m)
+				}
+			}
+			if len(other) > 0 {
+				t = pick(g, other)
+			}
+		}
 		if g.chance(12) {
 			t = typeRef{full: sh.full, file: fi}
 			g.tag("self-reference")
